@@ -1,1 +1,2 @@
 pub mod enc;
+pub mod docgen;
